@@ -398,7 +398,8 @@ def r15_4(ctx, prog, crate):
         ok = len(kp) == 1
         if ok:
             # known_parallelism only on the None arm of NonZero::new's result
-            sw = [(bi, t) for bi, t, base in tables.discr_switches(m) if any(s.kind == "call" and s.b == nz.bb for s in m.prov.local_src(base))]
+            sw_ = tables.switch_on_call_result(m, nz)
+            sw = [sw_] if sw_ is not None else []
             ok = len(sw) == 1
             if ok:
                 arms, otherwise = tables.arm_targets(sw[0][1])
